@@ -64,6 +64,9 @@ def run(ctx):
                 continue
             for handle in ("reopened", "writer", "reopened"):
                 configs.append({"iface": iface, "shuffle": 0, "fp": fp, "repeat": False, "handle": handle})
+    # a selection option must not disturb the order: the shards kept by the per-metadata limit come in written order
+    configs += [{"iface": i, "shuffle": 0, "fp": 2, "repeat": False, "limit": lim}
+                for i in ("numpy", "concurrent", "tfdata") for lim in (1, 2)]
     R.run_grid(ctx, "C03", "seq", configs)
 
 
